@@ -591,17 +591,24 @@ pub open spec fn md_parts(t: Seq<char>, p: int, o: int, c: int) -> bool {
     &&& forall|q: int| c < q < b.len() ==> #[trigger] b[q] != md_close_byte(b[o])
 }
 
-/// text before "[//]:" unchanged; "[//]:" up to and including the opening delimiter blanked; the
-/// text strictly between the delimiters unchanged (the tag "as written"); closing delimiter
-/// blanked; text after it unchanged.
+/// what the head loop writes for a byte: a line break stays, everything else becomes a space
+pub open spec fn nl_or_sp(x: u8) -> u8 { if x == 0x0au8 { 0x0au8 } else { 0x20u8 } }
+
+/// text before "[//]:" unchanged; "[//]:" and the opening delimiter blanked; between them every byte
+/// is blanked or kept (which of the two is the newline clause's business); the text strictly
+/// between the delimiters unchanged (the tag "as written"); closing delimiter blanked; text after
+/// it unchanged.
 pub open spec fn n6_frame(inp: Seq<u8>, out: Seq<u8>, p: int, o: int, c: int) -> bool {
     &&& out.len() == inp.len()
-    &&& forall|i: int| 0 <= i < inp.len() ==> #[trigger] out[i] == (if p <= i <= o || i == c { 0x20u8 } else { inp[i] })
+    &&& forall|i: int| 0 <= i < inp.len() ==> (
+            if p <= i < p + 5 || i == o || i == c { #[trigger] out[i] == 0x20u8 }
+            else if p + 5 <= i < o { out[i] == 0x20u8 || out[i] == inp[i] }
+            else { out[i] == inp[i] })
 }
 
-/// carve-out of KF-N6: the title's opening delimiter is on the line of `[//]:`
-pub open spec fn no_newline_before_title(b: Seq<u8>, p: int, o: int) -> bool {
-    forall|i: int| p + 5 <= i < o ==> #[trigger] b[i] != 0x0au8
+/// the filler between "[//]:" and the content keeps exactly the line breaks
+pub open spec fn fill_keeps_newlines(b: Seq<u8>, p: int, fill: Seq<u8>) -> bool {
+    forall|k: int| 0 <= k < fill.len() ==> (#[trigger] fill[k] == 0x0au8) == (b[p + 5 + k] == 0x0au8)
 }
 
 proof fn lemma_md_literals()
@@ -617,22 +624,24 @@ proof fn lemma_md_literals()
     assert(utf8(" "@) =~= sp(1));
 }
 
-/// the pushed pieces, put together, are the text with prefix and delimiters blanked (proved)
+/// the pushed pieces, put together, satisfy the frame (proved)
 proof fn lemma_n6_result(b: Seq<u8>, out: Seq<u8>, p: int, o: int, c: int, fill: Seq<u8>)
     requires
         0 <= p && p + 5 <= o < c < b.len(),
         fill.len() == o - (p + 5) + 1,
-        forall|k: int| 0 <= k < fill.len() ==> #[trigger] fill[k] == 0x20u8,
-        b.subrange(p, p + 5) == b_md_prefix(),
-        b[o] != 0x0au8 && b[c] != 0x0au8,
+        forall|k: int| 0 <= k < fill.len() ==> #[trigger] fill[k] == 0x20u8 || fill[k] == b[p + 5 + k],
+        fill[o - (p + 5)] == 0x20u8,
         out == b.subrange(0, p) + sp(5) + fill + b.subrange(o + 1, c) + seq![0x20u8]
             + (if c + 1 < b.len() { b.subrange(c + 1, b.len() as int) } else { Seq::<u8>::empty() }),
     ensures
         n6_frame(b, out, p, o, c),
-        no_newline_before_title(b, p, o) ==> same_len_and_newlines(b, out),
+        forall|k: int| 0 <= k < fill.len() ==> out[p + 5 + k] == #[trigger] fill[k],
 {
     assert(out.len() == b.len());
-    assert forall|i: int| 0 <= i < b.len() implies #[trigger] out[i] == (if p <= i <= o || i == c { 0x20u8 } else { b[i] }) by {
+    assert forall|i: int| 0 <= i < b.len() implies (
+            if p <= i < p + 5 || i == o || i == c { #[trigger] out[i] == 0x20u8 }
+            else if p + 5 <= i < o { out[i] == 0x20u8 || out[i] == b[i] }
+            else { out[i] == b[i] }) by {
         if i < p { assert(out[i] == b.subrange(0, p)[i]); }
         else if i < p + 5 { assert(out[i] == sp(5)[i - p]); }
         else if i <= o { assert(out[i] == fill[i - (p + 5)]); }
@@ -640,11 +649,70 @@ proof fn lemma_n6_result(b: Seq<u8>, out: Seq<u8>, p: int, o: int, c: int, fill:
         else if i == c { }
         else { assert(out[i] == b.subrange(c + 1, b.len() as int)[i - (c + 1)]); }
     }
-    if no_newline_before_title(b, p, o) {
-        assert forall|i: int| 0 <= i < b.len() implies (#[trigger] out[i] == 0x0au8) == (b[i] == 0x0au8) by {
-            if p <= i < p + 5 { assert(b[i] == b.subrange(p, p + 5)[i - p] && b[i] == b_md_prefix()[i - p]); }
-        }
+    assert forall|k: int| 0 <= k < fill.len() implies out[p + 5 + k] == #[trigger] fill[k] by {
+        assert(out[p + 5 + k] == fill[(p + 5 + k) - (p + 5)]);
     }
+}
+
+/// frame + "the filler keeps exactly the line breaks" => every '\n' stays where it was (proved)
+proof fn lemma_n6_newlines(b: Seq<u8>, out: Seq<u8>, p: int, o: int, c: int, fill: Seq<u8>)
+    requires
+        0 <= p && p + 5 <= o < c < b.len(),
+        fill.len() == o - (p + 5) + 1,
+        n6_frame(b, out, p, o, c),
+        forall|k: int| 0 <= k < fill.len() ==> out[p + 5 + k] == #[trigger] fill[k],
+        fill_keeps_newlines(b, p, fill),
+        b.subrange(p, p + 5) == b_md_prefix(),
+        b[o] != 0x0au8 && b[c] != 0x0au8,
+    ensures
+        same_len_and_newlines(b, out),
+{
+    assert forall|i: int| 0 <= i < b.len() implies (#[trigger] out[i] == 0x0au8) == (b[i] == 0x0au8) by {
+        if p <= i < p + 5 { assert(b[i] == b.subrange(p, p + 5)[i - p] && b[i] == b_md_prefix()[i - p]); }
+        else if p + 5 <= i < o { assert(out[p + 5 + (i - (p + 5))] == fill[i - (p + 5)]); }
+    }
+}
+
+/// a str is determined by its bytes: any text whose bytes are `b` is `decode_utf8(b)` (proved)
+proof fn lemma_text_of_bytes(b: Seq<u8>)
+    ensures forall|v: Seq<char>| #[trigger] utf8(v) == b ==> v == decode_utf8(b)
+{
+    assert forall|v: Seq<char>| #[trigger] utf8(v) == b implies v == decode_utf8(b) by {
+        encode_utf8_decode_utf8(v);
+    }
+}
+
+/// what `find` with the delimiter predicate on `b[ss..]` tells about `b` at offset `ss + i` (proved)
+proof fn lemma_n6_open_delimiter(b: Seq<u8>, ss: int, i: int)
+    requires
+        0 <= ss <= b.len() && byte_boundary(b, ss),
+        0 <= i < b.len() - ss,
+        byte_boundary(b.subrange(ss, b.len() as int), i),
+        decode_utf8(b.subrange(ss, b.len() as int).subrange(i, b.len() - ss)).len() > 0,
+        md_delim()(decode_utf8(b.subrange(ss, b.len() as int).subrange(i, b.len() - ss))[0]),
+    ensures
+        byte_boundary(b, ss + i),
+        decode_utf8(b.subrange(ss + i, b.len() as int)).len() > 0,
+        ({ let c0 = decode_utf8(b.subrange(ss + i, b.len() as int))[0]; c0 == '(' || c0 == '"' || c0 == '\'' }),
+{
+    let bx = b.subrange(ss, b.len() as int);
+    assert(bx.subrange(i, bx.len() as int) =~= b.subrange(ss + i, b.len() as int));
+    if i > 0 { assert(bx[i] == b[ss + i]); }
+    lemma_md_delim(decode_utf8(b.subrange(ss + i, b.len() as int))[0]);
+}
+
+/// the text `v` of `b[o..]` starts with an ASCII delimiter => byte `o` of `b` is its code (proved)
+proof fn lemma_n6_open_byte(b: Seq<u8>, o: int, v: Seq<char>)
+    requires
+        0 <= o < b.len(),
+        utf8(v) == b.subrange(o, b.len() as int),
+        v.len() > 0 && (v[0] == '(' || v[0] == '"' || v[0] == '\''),
+    ensures
+        b[o] == v[0] as u8,
+        b[o] == 0x28u8 || b[o] == 0x22u8 || b[o] == 0x27u8,
+{
+    lemma_first_char_ascii(v);
+    assert(b.subrange(o, b.len() as int)[0] == b[o]);
 }
 
 //@unit id=N6 file=src/language_parsers/markdown.rs fn=markdown_comments_parser slice_from=<<let comment = &source_code[node.byte_range()];>> slice_until=<<Some(result)>>
@@ -654,11 +722,8 @@ fn n6_markdown_comment_text(verif_comment_text: &str) -> (r: Option<String>)
         r matches Some(s) ==> utf8(s@).len() == utf8(verif_comment_text@).len(), // [N6.post.same_byte_length]
         r matches Some(s) ==> exists|p: int, o: int, c: int| #[trigger] md_parts(verif_comment_text@, p, o, c) // [N6.post.content_between_delimiters_unchanged]
             && n6_frame(utf8(verif_comment_text@), utf8(s@), p, o, c),
-        // KNOWN FINDING KF-N6 (see normalise.notes.md, group normalise_kf): the uncarved clause "every '\n' stays
-        // at its offset" FAILS on the real code - a line break between `[//]:` and the title's opening
-        // delimiter is blanked. Proved here under the carve-out "no '\n' between the prefix and the delimiter".
-        r matches Some(s) ==> exists|p: int, o: int, c: int| #[trigger] md_parts(verif_comment_text@, p, o, c) // [N6.post.newlines_stay_in_place_carved]
-            && (no_newline_before_title(utf8(verif_comment_text@), p, o) ==> same_len_and_newlines(utf8(verif_comment_text@), utf8(s@))),
+        r matches Some(s) ==> forall|i: int| 0 <= i < utf8(verif_comment_text@).len() ==> // [N6.post.newlines_stay_in_place]
+            (#[trigger] utf8(s@)[i] == 0x0au8) == (utf8(verif_comment_text@)[i] == 0x0au8),
 //@tail
     proof {
         let p = prefix_idx as int;
@@ -669,6 +734,10 @@ fn n6_markdown_comment_text(verif_comment_text: &str) -> (r: Option<String>)
         assert(out == bc.subrange(0, p) + sp(5) + verif_fill + bc.subrange(o + 1, c) + seq![0x20u8] + rest); // [N6.proof.result_is_text_with_prefix_and_delimiters_blanked]
         assert(bc.subrange(p, p + 5) == b_md_prefix());
         lemma_n6_result(bc, out, p, o, c, verif_fill);
+        // (a condition, not an assertion: text whose filler drops a line break fails the newline CLAUSE itself)
+        if fill_keeps_newlines(bc, p, verif_fill) {
+            lemma_n6_newlines(bc, out, p, o, c, verif_fill);
+        }
         assert(md_parts(comment@, p, o, c)); // [N6.proof.delimiters_are_as_specified]
     }
     Some(result)
@@ -686,61 +755,59 @@ verif_comment_text
     }
 //@edit rule=ghost before=<<let open_idx>>
     let ghost t2 = decode_utf8(bc.subrange(start_search as int, bc.len() as int));
-    proof {
-        // any str whose bytes are bc[start_search..] has the text t2
-        assert forall|v: Seq<char>| #[trigger] utf8(v) == bc.subrange(start_search as int, bc.len() as int) implies v == t2 by {
-            encode_utf8_decode_utf8(v);
-        }
-    }
+    proof { lemma_text_of_bytes(bc.subrange(start_search as int, bc.len() as int)); }
 //@edit rule=ghost before=<<let open_char>>
     let ghost t3 = decode_utf8(bc.subrange(open_idx as int, bc.len() as int));
     proof {
-        let bx = bc.subrange(start_search as int, bc.len() as int);
-        let i = open_idx - start_search;
-        assert(bx[i] == bc[open_idx as int]);
-        assert(byte_boundary(bc, open_idx as int));
-        assert(bx.subrange(i, bx.len() as int) =~= bc.subrange(open_idx as int, bc.len() as int));
-        assert(t3.len() > 0 && md_delim()(t3[0]));
-        lemma_md_delim(t3[0]);
-        assert(find_pred_spec(t2, md_delim()) == Some(i as usize)); // [N6.proof.open_idx_is_first_delimiter_after_prefix]
-        // any str whose bytes are bc[open_idx..] has the text t3
-        assert forall|v: Seq<char>| #[trigger] utf8(v) == bc.subrange(open_idx as int, bc.len() as int) implies v == t3 by {
-            encode_utf8_decode_utf8(v);
-        }
+        assert(find_pred_spec(t2, md_delim()) == Some((open_idx - start_search) as usize)); // [N6.proof.open_idx_is_first_delimiter_after_prefix]
+        lemma_n6_open_delimiter(bc, start_search as int, open_idx - start_search);
+        lemma_text_of_bytes(bc.subrange(open_idx as int, bc.len() as int));
     }
 //@edit rule=ghost before=<<let close_idx>>
     proof {
         assert(open_char == t3[0]); // [N6.proof.open_char_is_the_delimiter_found]
         let v = choose|v: Seq<char>| #[trigger] utf8(v) == bc.subrange(open_idx as int, bc.len() as int);
-        assert(v == t3);
-        lemma_first_char_ascii(t3);
-        assert(bc.subrange(open_idx as int, bc.len() as int)[0] == bc[open_idx as int]);
+        lemma_n6_open_byte(bc, open_idx as int, v);
         assert(bc[open_idx as int] == open_char as u8);
         assert(close_char as u8 == md_close_byte(bc[open_idx as int])); // [N6.proof.close_char_matches_open_char]
-        assert(bc[open_idx as int] == 0x28u8 || bc[open_idx as int] == 0x22u8 || bc[open_idx as int] == 0x27u8);
     }
 //@edit rule=ghost before=<<let mut result>>
     proof {
         lemma_after_ascii_is_boundary(comment@, open_idx as int);
         lemma_after_ascii_is_boundary(comment@, close_idx as int);
     }
-//@edit rule=ghost before=<<result.push_str(" ".repeat(>>
-    let ghost verif_n = open_idx - (prefix_idx + 5) + 1;
-    let ghost verif_r0 = utf8(result@);
+//@edit rule=ghost before=<<result.push_str(" ".repeat(>> optional=1
+    // (only the text before commit 4a26ac1 has this statement; kept so that the old text is DECIDED)
     proof {
         assert(utf8(" "@).len() == 1);
-        assert(utf8(" "@).len() * verif_n == verif_n) by (nonlinear_arith) requires utf8(" "@).len() == 1;
-        assert(verif_r0 =~= bc.subrange(0, prefix_idx as int) + sp(5)); // [N6.proof.prefix_blanked_by_five_spaces]
+        assert(utf8(" "@).len() * (open_idx - (prefix_idx + 5) + 1) == open_idx - (prefix_idx + 5) + 1) by (nonlinear_arith) requires utf8(" "@).len() == 1;
+        assert(utf8(result@) =~= bc.subrange(0, prefix_idx as int) + sp(5));
     }
+//@edit rule=E15 find=<<for $a in &$b.as_bytes()[$c..=$d]>> optional=1
+    let verif_head = verif_bytes_incl($b, $c, $d);
+    let ghost verif_pre = utf8(result@);
+    proof { assert(verif_pre =~= bc.subrange(0, prefix_idx as int) + sp(5)); } // [N6.proof.prefix_blanked_by_five_spaces]
+    for $a in it: verif_head
+        invariant
+            utf8(result@).len() == verif_pre.len() + it.index@, // [N6.inv.one_byte_per_head_byte]
+            forall|k: int| 0 <= k < verif_pre.len() ==> #[trigger] utf8(result@)[k] == verif_pre[k], // [N6.inv.text_before_head_untouched]
+            forall|k: int| 0 <= k < it.index@ ==> #[trigger] utf8(result@)[verif_pre.len() + k] == nl_or_sp(verif_head@[k]), // [N6.inv.head_blanked_keeping_newlines]
+            it.seq().unref() == verif_head@,
 //@edit rule=ghost before=<<result.push_str(&comment[open_idx>>
     let ghost verif_fill = utf8(result@).subrange(prefix_idx + 5, utf8(result@).len() as int);
     proof {
-        assert(utf8(result@).len() == verif_r0.len() + verif_n); // [N6.proof.filler_covers_prefix_rest_and_open_delimiter]
-        assert(verif_fill.len() == verif_n);
-        assert forall|k: int| 0 <= k < verif_fill.len() implies #[trigger] verif_fill[k] == 0x20u8 by {
+        assert(verif_fill.len() == open_idx - (prefix_idx + 5) + 1); // [N6.proof.filler_covers_prefix_rest_and_open_delimiter]
+        assert(utf8(result@) =~= bc.subrange(0, prefix_idx as int) + sp(5) + verif_fill); // [N6.proof.prefix_blanked_by_five_spaces_then_filler]
+        assert forall|k: int| 0 <= k < verif_fill.len() implies #[trigger] verif_fill[k] == 0x20u8 || verif_fill[k] == bc[prefix_idx + 5 + k] by {
             assert(k % 1 == 0);
+            assert(verif_fill[k] == utf8(result@)[prefix_idx + 5 + k]);
+            assert(bc.subrange(prefix_idx + 5, open_idx + 1)[k] == bc[prefix_idx + 5 + k]);
         }
-        assert(utf8(result@) =~= bc.subrange(0, prefix_idx as int) + sp(5) + verif_fill);
+        assert(verif_fill[open_idx - (prefix_idx + 5)] == 0x20u8) by {
+            assert((open_idx - (prefix_idx + 5)) % 1 == 0);
+            assert(verif_fill[open_idx - (prefix_idx + 5)] == utf8(result@)[open_idx as int]);
+            assert(bc.subrange(prefix_idx + 5, open_idx + 1)[open_idx - (prefix_idx + 5)] == bc[open_idx as int]);
+        }
     }
 //@closure rule=E12 find=<<|c|>> params=<<|c: char|>> ret=<<b: bool>>
             ensures b == md_delim()(c), // [N6.closure.is_opening_delimiter]
@@ -767,31 +834,48 @@ verif_comment_text
 //@item file=src/lib.rs kind=struct name=Position
 //@item file=src/language_parsers/mod.rs kind=struct name=Comment
 
-/// T-ext bounds: block row + comment line and block start byte + comment offset are file positions,
-/// hence fit `usize` (both are bounded by the file size).
-pub open spec fn n7_fits(c: Comment, row: usize, start_byte: usize) -> bool {
+/// T-ext bounds: block row + comment line, block column + comment column and block start byte +
+/// comment offset are file positions, hence fit `usize` (all are bounded by the file size).
+pub open spec fn n7_fits(c: Comment, row: usize, column: usize, start_byte: usize) -> bool {
     &&& c.position_range.start.line + row <= usize::MAX
     &&& c.position_range.end.line + row <= usize::MAX
+    &&& c.position_range.start.character + column <= usize::MAX
+    &&& c.position_range.end.character + column <= usize::MAX
     &&& c.source_range.start + start_byte <= usize::MAX
     &&& c.source_range.end + start_byte <= usize::MAX
 }
 
-//@unit id=N7 file=src/language_parsers/markdown.rs fn=<<impl<C: CommentsParser> MdParser<C>::parse_html_comments>> slice_from=<<comment.position_range.start.line>> slice_until=<<all_html_comments.push(comment);>>
+/// C03/C10 "the line and column of the tag's `<`" in the FILE: the inner parser reports positions relative to
+/// the html block's text (1-based line `l`, column `c`). With (R, C) = the block node's start row and start
+/// column, (l, c) is file position (l + R, c + C) on the block's first line and (l + R, c) on later lines
+/// (only the first line of the block text starts at the block's column).
+pub open spec fn file_position(inner: Position, row: usize, column: usize) -> Position {
+    Position {
+        line: (inner.line + row) as usize,
+        character: (if inner.line == 1 { inner.character + column } else { inner.character as int }) as usize,
+    }
+}
+
+//@unit id=N7 file=src/language_parsers/markdown.rs fn=<<impl<C: CommentsParser> MdParser<C>::parse_html_comments>> slice_from=<<for mut comment in &mut html_comments>> slice_until=<<all_html_comments.push(comment);>>
 //@wrapper
-fn n7_shift_html_comment(comment: &mut Comment, verif_row: usize, verif_start_byte: usize)
+fn n7_shift_html_comment(comment: &mut Comment, verif_row: usize, verif_column: usize, verif_start_byte: usize)
     requires
-        n7_fits(*old(comment), verif_row, verif_start_byte), // [N7.pre.file_positions_fit_usize]
+        n7_fits(*old(comment), verif_row, verif_column, verif_start_byte), // [N7.pre.file_positions_fit_usize]
     ensures
-        final(comment).position_range.start.line == old(comment).position_range.start.line + verif_row, // [N7.post.start_line_shifted_by_block_row]
-        final(comment).position_range.end.line == old(comment).position_range.end.line + verif_row, // [N7.post.end_line_shifted_by_block_row]
-        final(comment).position_range.start.character == old(comment).position_range.start.character // [N7.post.columns_unchanged]
-            && final(comment).position_range.end.character == old(comment).position_range.end.character,
-        final(comment).source_range.start == old(comment).source_range.start + verif_start_byte, // [N7.post.source_range_shifted_by_block_start]
-        final(comment).source_range.end == old(comment).source_range.end + verif_start_byte, // [N7.post.source_range_end_shifted_by_block_start]
+        final(comment).position_range.start == file_position(old(comment).position_range.start, verif_row, verif_column) // [N7.post.positions_are_file_positions]
+            && final(comment).position_range.end == file_position(old(comment).position_range.end, verif_row, verif_column),
+        final(comment).position_range.start.line == old(comment).position_range.start.line + verif_row // [N7.post.lines_shifted_by_block_row]
+            && final(comment).position_range.end.line == old(comment).position_range.end.line + verif_row,
+        final(comment).source_range.start == old(comment).source_range.start + verif_start_byte // [N7.post.source_range_is_file_range]
+            && final(comment).source_range.end == old(comment).source_range.end + verif_start_byte,
         final(comment).comment_text == old(comment).comment_text, // [N7.post.text_unchanged]
-//@edit rule=SLICE find=<<node.start_position().row>> count=all
+//@edit rule=SLICE find=<<for mut comment in &mut html_comments {>>
+
+//@edit rule=SLICE find=<<node.start_position().row>> count=all optional=1
 verif_row
-//@edit rule=SLICE find=<<node.start_byte()>> count=all
+//@edit rule=SLICE find=<<node.start_position().column>> count=all optional=1
+verif_column
+//@edit rule=SLICE find=<<node.start_byte()>> count=all optional=1
 verif_start_byte
 //@end
 
